@@ -8,99 +8,6 @@ EXTERNAL = [
     "modelled, not verified: xmlparser 0.13.6 tokenizer, indextree 4.7.2 arena, encoding_rs/xhtmlchardet decoders, genawaiter, ahash (DESIGN.md section 6)",
 ]
 
-PROPS = {
-    "C01": {
-        "suites": [("entity", 3000, 60000), ("rt", 2500, 60000)],
-        "show_constants": True,
-        "proved_scope": "character level: parse_content(serialize_text s)=s and parse_content(serialize_attribute s)=s for every string; escaped output free of raw '<' / '\"' / TAB / LF / CR",
-        "not_proved": "tree level (C01_main): serializer + tokenizer contract + builder",
-        "modelled": EXTERNAL,
-        "assumptions": ["NoopNormalizer (identity) is the normalizer"],
-    },
-    "C08": {
-        "suites": [("idmap", 200, 3000)],
-        "show_constants": True,
-        "proved_scope": "generic in the id width: table invariant (by_value = graph of v -> to_id(index in by_id), by_id duplicate-free) holds of Xot::new() and is preserved by every registration; with at most 2^bits distinct values: equal ids <=> equal values (names: (local, namespace id)), get_value/get_id inverse, read-only lookups find exactly the registered values; id/value pairs persist under any further history (no bound); built-ins distinct and resolving to the standard strings (decide over builtinRegistrations); clone answers alike; the unbounded claim is refuted at every width (C08_wraps, C08_full_false) and at the extracted widths from Xot::new() (n65534 -> xml:space / empty prefix / no namespace)",
-        "not_proved": "that parse()/html5() perform exactly the get_id_mut calls the harness observes (covered by the `implicit` correspondence requests, not by a parser model); consequences for trees (names compare equal across trees iff expanded names equal) are the table statement plus the tree layers of C01/C09",
-        "modelled": EXTERNAL + ["ahash HashMap as a finite map (get = first match of an association list, insert = cons)"],
-        "assumptions": ["derived Clone of Vec/HashMap/String yields equal values (extractor checks the derives)",
-                        "release profile: `index as u16` truncates silently (it does in every profile)"],
-    },
-    "C14": {
-        "suites": [("entity", 3000, 60000)],
-        "show_constants": True,
-        "proved_scope": "character level: CDATA sections of serialize_cdata concatenate to the input and contain no ]]>; unescaped_gt text decodes to the input and contains no ]]>",
-        "not_proved": "tree level option independence; Pretty placement rules",
-        "modelled": EXTERNAL,
-        "assumptions": ["NoopNormalizer (identity) is the normalizer"],
-    },
-    "C13": {
-        "suites": [("cmp", 900, 12000)],
-        "proved_scope": (
-            "for ALL trees, filters and text comparisons: advanced_deep_equal = structural equality of the filtered forests "
-            "(C13_advanced; Rust zip semantics included). For structurally valid trees (children ordered namespace/attribute/normal, "
-            "unique attribute names per node, attribute/namespace nodes are leaves) and normal compared nodes: "
-            "deep_equal a b <-> canon a = canon b (C13_iff), hence reflexive / symmetric / transitive; insensitive to namespace "
-            "nodes anywhere (declarations, prefixes: C13_ignores_declarations, C13_ignores_prefix) and to the attribute order of the "
-            "compared node (C13_ignores_attribute_order; deeper levels via canon, which sorts attributes); with any text comparison "
-            "the canonical forms are related up to cmp (C13_advanced_all); deep_equal_xpath on element/element and document/document = "
-            "Canon.rel cmp of the canonical forms with everything but elements and text discarded, otherwise CValue.rel cmp of the two "
-            "nodes (C13_xpath, C13_xpath_other); deep_equal_children <-> equal canonical child sequences (C13_children); "
-            "shallow_equal <-> equal canonical values, for every node kind (C13_shallow); shallow_equal_ignore_attributes <-> equal "
-            "canonical values with the listed names removed, for ignore lists WITHOUT repeated names (C13_shallow_ignore_partial); "
-            "string_value of document/element = concatenated text of the canonical form, other nodes their own content "
-            "(C13_string_value, C13_string_value_other). Proved negations with closed witnesses: C13_iff_Statement_false "
-            "(attribute / namespace nodes always deep_equal: C13_abnormal_always_equal, C13_abnormal_vs_normal), "
-            "C13_shallow_ignore_Statement_false (repeated name in the ignore list, wrong false and wrong true)."
-        ),
-        "not_proved": (
-            "no statement about structurally invalid trees beyond C13_advanced (ill-ordered children, duplicate attribute names, "
-            "children under attribute/namespace nodes); attribute-order insensitivity below the compared node is only available "
-            "through C13_iff + the definition of canon, not as a separate theorem; deep_equal_xpath(==) a b = deep_equal of the "
-            "trees with comments/PIs removed is not derived (needs validity of the stripped tree), C13_xpath states the relation on "
-            "canonical forms instead; Canon.rel compares attribute maps by size + lookup (finite-map relation), its equivalence with a "
-            "position-wise comparison of the sorted lists is not proved; equivalence-relation laws for custom text comparisons are "
-            "not claimed (they depend on cmp); text_content / text_content_str are modelled and in the correspondence suite but have "
-            "no theorem; the dev-profile behaviour of the usize subtraction (panic on overflow) is not modelled (release: wrapping); "
-            "name id <-> expanded name is C08"
-        ),
-        "modelled": EXTERNAL,
-        "assumptions": [
-            "a name id stands for its expanded name (local name, namespace URI): interning is one-to-one (C08)",
-            "harness built with overflow-checks = false: usize arithmetic wraps modulo 2^64",
-            "text comparisons and filters are pure total functions of their arguments (filter of the node's own subtree)",
-            "attribute lists have fewer than 2^64 entries (hypothesis of C13_shallow*)",
-        ],
-    },
-    "C04": {
-        "suites": [("forest", 300, 6000)],
-        "proved_scope": "invariant Forest.inv defined (decidable); proved: holds initially, preserved by set_text_consolidation; value updates never create, lose or reorder a handle. The invariant is additionally evaluated on the model state after every step of every correspondence history and compared with an independent validator on the real forest",
-        "not_proved": "preservation of Forest.inv by each moving / creating / removing operation (C04_step), hence C04_reach by induction; monotonicity of is_removed (holds in the model by construction of fresh handles, not yet stated as a theorem)",
-        "modelled": EXTERNAL + ["handles are creation-order numbers; indextree slot reuse and the 15-bit stamp are below the model"],
-        "assumptions": ["arguments are live handles"],
-    },
-    "C06": {
-        "suites": [("forest", 300, 6000)],
-        "proved_scope": "every refusal produced by the argument checks (structure check, sibling reference check, replace / element_wrap / element_unwrap pre-checks) returns the forest unchanged; same-position append is the identity",
-        "not_proved": "that no error can arise after the checks (late NodeError unreachable under the invariant) and absence of panics under the invariant",
-        "modelled": EXTERNAL,
-        "assumptions": ["arguments are live handles"],
-    },
-    "C11": {
-        "suites": [("forest", 300, 6000)],
-        "proved_scope": "updating an existing key keeps every node and handle in place; removing an absent key is the identity; element-only accessors panic without change on non-elements. Agreement of the read-only and the mutable view is checked on the implementation after every step (both Rust copies against the model's single definition)",
-        "not_proved": "refinement of insert/remove/clear/insert_node to an insertion-ordered association list (C11_refine) and C11_order",
-        "modelled": EXTERNAL,
-        "assumptions": ["arguments are live handles"],
-    },
-    "C05": {
-        "suites": [("fspec", 400, 8000)],
-        "proved_scope": "IN PROGRESS",
-        "not_proved": "IN PROGRESS",
-        "modelled": EXTERNAL,
-        "assumptions": ["arguments are live handles", "when consolidation is on the forest holds no adjacent text nodes before the call (always true while consolidation was never switched off)"],
-    },
-}
 PROPS = {}
 for _path in sorted(glob.glob(os.path.join(os.path.dirname(os.path.abspath(__file__)), "props", "C*.json"))):
     with open(_path, encoding="utf-8") as _f:
